@@ -253,20 +253,23 @@ MatchLenAt(p, s, i) ==
 
 \* ${s/p/r} and ${s//p/r}: leftmost match, longest at that position; // continues
 \* after each match.  An empty pattern replaces nothing.
+\* The replacement r is a text in which the atom "AMP" (an unquoted &) stands for the matched text.
+RECURSIVE Inst(_, _)
+Inst(r, m) == IF r = <<>> THEN <<>> ELSE (IF Head(r) = "AMP" THEN m ELSE <<Head(r)>>) \o Inst(Tail(r), m)
 RECURSIVE ReplFrom(_, _, _, _, _)
 ReplFrom(p, s, i, r, all) ==
   IF i > Len(s) THEN <<>>
   ELSE LET n == MatchLenAt(p, s, i) IN
-       IF n > 0 THEN r \o (IF all THEN ReplFrom(p, s, i + n, r, all) ELSE Drop(s, i + n - 1))
+       IF n > 0 THEN Inst(r, SubSeq(s, i, i + n - 1)) \o (IF all THEN ReplFrom(p, s, i + n, r, all) ELSE Drop(s, i + n - 1))
        ELSE <<s[i]>> \o ReplFrom(p, s, i + 1, r, all)
 
 ReplOp(op, p, s, r) ==
-  CASE op = "/#" -> IF p = <<>> THEN r \o s
-                    ELSE LET L == PrefixLens(p, s) IN IF L = {} THEN s ELSE r \o Drop(s, MaxOf(L))
-    [] op = "/%" -> IF p = <<>> THEN s \o r
-                    ELSE LET L == SuffixLens(p, s) IN IF L = {} THEN s ELSE Take(s, Len(s) - MaxOf(L)) \o r
+  CASE op = "/#" -> IF p = <<>> THEN Inst(r, <<>>) \o s
+                    ELSE LET L == PrefixLens(p, s) IN IF L = {} THEN s ELSE Inst(r, Take(s, MaxOf(L))) \o Drop(s, MaxOf(L))
+    [] op = "/%" -> IF p = <<>> THEN s \o Inst(r, <<>>)
+                    ELSE LET L == SuffixLens(p, s) IN IF L = {} THEN s ELSE Take(s, Len(s) - MaxOf(L)) \o Inst(r, Drop(s, Len(s) - MaxOf(L)))
     [] OTHER     -> IF p = <<>> THEN s
-                    ELSE IF s = <<>> THEN (IF Match(p, <<>>) THEN r ELSE <<>>)
+                    ELSE IF s = <<>> THEN (IF Match(p, <<>>) THEN Inst(r, <<>>) ELSE <<>>)
                     ELSE ReplFrom(p, s, 1, r, op = "//")
 
 \* ${s^p} ${s^^p} ${s,p} ${s,,p}: every (or the first) character that matches p
@@ -317,9 +320,13 @@ WordText(w, inDq) ==
   ELSE (IF inDq /\ Head(w).qk = "s" THEN <<"'">> \o Head(w).t \o <<"'">> ELSE Head(w).t) \o WordText(Tail(w), inDq)
 
 \* replacement strings for ${x/p/r}: rk = 1 omitted (${x/p}), 2 empty (${x/p/}), 3.. text
-Repls == << <<>>, <<>>, <<"X">>, <<"X"," ","Y">> >>
-NRepls == IF Wide THEN 4 ELSE 3
-ReplSrc(rk) == IF rk = 1 THEN <<>> ELSE <<"/">> \o Repls[rk]
+\*   4: [&] (the match in brackets; bash 5.2 patsub_replacement), 5: X Y, 6: \& (a literal &)
+Repls    == << <<>>, <<>>, <<"X">>, <<"[", "AMP", "]">>, <<"X"," ","Y">>, <<"&">> >>
+ReplSrcs == << <<>>, <<>>, <<"X">>, <<"[", "&", "]">>,   <<"X"," ","Y">>, <<"\\", "&">> >>
+\* what the implementation substitutes (deviation AmpLiteral): & is an ordinary character, \& stays \&
+ReplsDev == << <<>>, <<>>, <<"X">>, <<"[", "&", "]">>,   <<"X"," ","Y">>, <<"\\", "&">> >>
+NRepls == IF Wide THEN 6 ELSE 4
+ReplSrc(rk) == IF rk = 1 THEN <<>> ELSE <<"/">> \o ReplSrcs[rk]
 
 \* ------------------------------------------------------------------ results
 \* kind "s": one string; "list": elements; "word": an argument word (quoting matters)
@@ -435,6 +442,8 @@ SlicePos(ps, off, len) ==
 \*  WordQuotesIgnored    quoting inside the argument word of :- := :+ ... is dropped (param.go uses Literal)
 \*  NegLenClamped        a negative length that bash rejects ("substring expression < 0") is clamped
 \*  AnchoredReplLiteral  ${x/#p/r} ${x/%p/r}: the # or % is taken as a literal pattern character
+\*  AmpLiteral           ${x/p/[&]}: an unquoted & in the replacement is not replaced by the match (bash 5.2
+\*                       patsub_replacement, on by default) and \& keeps its backslash
 \*  UnsetTransformed     an unset parameter is transformed like an empty string (so ${u/*/X} is X, ${u@Q} is '')
 \*  QSafeUnquoted        ${x@Q} leaves strings that need no quoting unquoted (DOCUMENTED in the property)
 \*  QDoubleQuoted        ${x@Q} of a string with a single quote and nothing else special uses "..." (syntax.Quote)
@@ -453,13 +462,13 @@ SlicePos(ps, off, len) ==
 AllDevs == {"ListOpJoined", "AssignAt0", "ListTestIgnored", "ListAtIgnored", "WordQuotesIgnored", "NegLenClamped",
             "AnchoredReplLiteral", "UnsetTransformed", "QSafeUnquoted", "QDoubleQuoted", "KeysOfScalar", "KeysJoined",
             "LenAssocOne", "IndirectSubscript", "IndirectBadName", "NamesAtEmptyField", "PatQuotesIgnored",
-            "EmptyFieldsDropped", "SuffixStopsAtNewline"}
+            "EmptyFieldsDropped", "SuffixStopsAtNewline", "AmpLiteral"}
 DevsOf(f) ==
   CASE f = "test" -> {"ListOpJoined", "AssignAt0", "ListTestIgnored", "WordQuotesIgnored"}
     [] f = "sub"  -> {"NegLenClamped"}
     [] f = "rem"  -> {"ListOpJoined", "PatQuotesIgnored", "SuffixStopsAtNewline"}
     [] f = "case" -> {"ListOpJoined"}
-    [] f = "repl" -> {"ListOpJoined", "AnchoredReplLiteral", "UnsetTransformed"}
+    [] f = "repl" -> {"ListOpJoined", "AnchoredReplLiteral", "UnsetTransformed", "AmpLiteral"}
     [] f = "at"   -> {"ListOpJoined", "ListAtIgnored", "UnsetTransformed", "QSafeUnquoted", "QDoubleQuoted"}
     [] f = "keys" -> {"KeysOfScalar", "KeysJoined"}
     [] f = "len"  -> {"LenAssocOne"}
@@ -553,9 +562,10 @@ Sem(dv, f, s, j, q, a, p) ==
     [] f = "rem"  -> LET pp == IF "PatQuotesIgnored" \in dv THEN UnquotePat(p) ELSE p
                          fn(t) == IF "SuffixStopsAtNewline" \in dv /\ a.op = "%" THEN DevPctRemove(pp, t) ELSE RemOp(a.op, pp, t)
                      IN perElem(fn)
-    [] f = "repl" -> LET fn(t) == IF "AnchoredReplLiteral" \in dv /\ a.op \in {"/#", "/%"}
-                                  THEN ReplOp("/", <<PLit(IF a.op = "/#" THEN "#" ELSE "%")>> \o p, t, Repls[a.r])
-                                  ELSE ReplOp(a.op, p, t, Repls[a.r])
+    [] f = "repl" -> LET rr == IF "AmpLiteral" \in dv THEN ReplsDev[a.r] ELSE Repls[a.r]
+                         fn(t) == IF "AnchoredReplLiteral" \in dv /\ a.op \in {"/#", "/%"}
+                                  THEN ReplOp("/", <<PLit(IF a.op = "/#" THEN "#" ELSE "%")>> \o p, t, rr)
+                                  ELSE ReplOp(a.op, p, t, rr)
                      IN perElem(fn)
     [] f = "case" -> LET fn(t) == CaseOp(a.op, p, t) IN perElem(fn)
     [] f = "at" ->
@@ -758,6 +768,8 @@ LawReplace(p, r) ==
      /\ (PrefixLens(p, s) = {} /\ a.op = "/#" /\ p # <<>> => r.t = s)
      /\ (SuffixLens(p, s) = {} /\ a.op = "/%" /\ p # <<>> => r.t = s)
      /\ (p # <<>> /\ rp = <<>> => Len(r.t) <= Len(s))
+     \* [&] keeps every character of the value and adds one pair of brackets per replaced match
+     /\ (a.r = 4 => SelectSeq(r.t, LAMBDA c : c \notin {"[", "]"}) = s)
 \* case conversion keeps the length and only changes the case
 LawCase(r) ==
   fam = "case" /\ ~View(st, sj).list =>
@@ -796,6 +808,7 @@ DevCands(p, r, fs) ==
           [] d = "NegLenClamped" -> a.len # NoLen /\ a.len < 0
           [] d = "AnchoredReplLiteral" -> a.op \in {"/#", "/%"}
           [] d = "UnsetTransformed" -> ~vw.set
+          [] d = "AmpLiteral" -> a.r \in {4, 6}
           [] d \in {"QSafeUnquoted", "QDoubleQuoted"} -> a.op = "Q"
           [] d = "KeysJoined" -> ~q
           [] d = "EmptyFieldsDropped" -> ~q /\ NonWsIfs1(st.ifs)
